@@ -1,8 +1,12 @@
 package calc_test
 
-// Deterministic reproductions of the C01 findings on the unchanged tree.  Each test FAILS while the
-// finding reproduces.  They are not matched by the unit's run regex (^TestVerifC01History); the
-// driver runs them by name ("confirm_test") when the finding is listed in KNOWN_FINDINGS.json.
+// Deterministic reproductions of the C01 findings.  Each test FAILS while its finding reproduces.
+//
+//   - TestVerifC01KnownBlockStale is an open finding: it is not matched by the unit's run regex
+//     (^TestVerifC01History); the driver runs it by name ("confirm_test") while the finding is listed
+//     as open in KNOWN_FINDINGS.json.
+//   - TestVerifC01HistoryRegression* were findings that have been fixed in /repo (653e98a, 427948a);
+//     they are matched by the run regex and must pass: they are plain regression inputs.
 
 import (
 	"net/netip"
@@ -77,7 +81,7 @@ func TestVerifC01KnownBlockStale(t *testing.T) {
 
 // Finding c01SigTierStale.  History: tier t1 (defaultAction Pass), policy in t1 selecting a local WEP,
 // then the tier is deleted.  Fresh Felix: only the policy and the WEP.
-func TestVerifC01KnownTierStale(t *testing.T) {
+func TestVerifC01HistoryRegressionTierDefaultAction(t *testing.T) {
 	ev.Quiet()
 	o := 1.0
 	tier := c01KV(model.TierKey{Name: "t1"}, &model.Tier{Order: &o, DefaultAction: v3.Pass})
@@ -89,19 +93,19 @@ func TestVerifC01KnownTierStale(t *testing.T) {
 	a := c01KnownRun(true, tier, pol(), c01KnownWEP("10.0.3.1", map[string]string{"a": "x"}), tierDel)
 	b := c01KnownRun(true, pol(), c01KnownWEP("10.0.3.1", map[string]string{"a": "x"}))
 	if d := dpmon.DiffSnapshots("history(tier created then deleted)", a, "fresh(no tier)", b); d != "" {
-		t.Fatalf("C01 finding %s reproduces:\n%s", c01SigTierStale, d)
+		t.Fatalf("C01 violated (regression of fixed finding %s):\n%s", c01SigTierStale, d)
 	}
 }
 
 // Finding c01SigSameSubnetStale.  Cross-subnet VXLAN pool, block on rhost (192.168.0.2/24).  History:
 // local node has 192.168.0.1/24 + an IPv6 address, then only the IPv6 address.  Fresh Felix: only
 // the final node resources.
-func TestVerifC01KnownSameSubnetStale(t *testing.T) {
+func TestVerifC01HistoryRegressionSameSubnet(t *testing.T) {
 	ev.Quiet()
 	common := []api.Update{c01KnownPool(encap.CrossSubnet), c01KnownBlock("10.0.1.0/29", c01Remote), c01KnownNode(c01Remote, "192.168.0.2/24", "")}
 	a := c01KnownRun(true, append(append([]api.Update{}, common...), c01KnownNode(c01Local, "192.168.0.1/24", "fd00:1::1/64"), c01KnownNode(c01Local, "", "fd00:1::1/64"))...)
 	b := c01KnownRun(true, append(append([]api.Update{}, common...), c01KnownNode(c01Local, "", "fd00:1::1/64"))...)
 	if d := dpmon.DiffSnapshots("history(local node loses its IPv4 address)", a, "fresh", b); d != "" {
-		t.Fatalf("C01 finding %s reproduces:\n%s", c01SigSameSubnetStale, d)
+		t.Fatalf("C01 violated (regression of fixed finding %s):\n%s", c01SigSameSubnetStale, d)
 	}
 }
